@@ -186,7 +186,8 @@ Section Prog.
     if awaiting e s n then (if in_ended_block s n then Go k s else Yield REnd (FThr n :: k) s) else enter n k s.
 
   Definition try_activate (e : env) (s : S) (n : nat) : option S :=      (* None: the condition evaluation raised *)
-    if forced (st s n) then Some (set_ns s n (set_cond (st s n) true (interrupt_registered (st s n)) (run_count (st s n))))
+    if cancelled (st s n) then Some s                                     (* a cancelled node is never activated *)
+    else if forced (st s n) then Some (set_ns s n (set_cond (st s n) true (interrupt_registered (st s n)) (run_count (st s n))))
     else if memn n (e_cond_err e) then None
     else if memn n (e_cond_true e)
          then Some (set_ns s n (set_cond (st s n) true (interrupt_registered (st s n)) (run_count (st s n))))
@@ -320,7 +321,7 @@ Section Prog.
     | FWatchAwait n => watch_await e in_int n k s
     | FWatchInv n => Go (FKidsEntry n :: FWatchBody n :: k) s
     | FWatchBody n => Yield RCont (FRet :: k) (mark_completed (complete s n) n)
-    | FAlarmAwait n => alarm_await e n k s
+    | FAlarmAwait n => match n_kind (nd n) with KAlarm => alarm_await e n k s | _ => Go k s end   (* this frame only exists for alarm nodes *)
     | FAlarmInv n => Go (FKidsEntry n :: FAlarmBody n :: k) s
     | FAlarmBody n => Yield RCont (FAlarmPost n :: k) s
     | FAlarmPost n =>
